@@ -234,6 +234,29 @@ def run(prog: Program, ctx: Ctx) -> None:  # noqa: PLR0912,PLR0915
         rows += 1
         label = src[len(header):].replace("\n", " / ")
         ctx.ob("R2", f"chain|{label}", got == want, f"{label}: griffe {got}; CPython {want}", where(sdi))
+    # a base list griffe cannot linearise (a class deriving from a plain class of the same name resolves to itself): the class's own fields still make
+    # the constructor, which is what CPython generates when the base has no fields
+    src = header + "class D:\n    pass\n@dataclass\nclass D(D):\n    a: int\n    b: int = 1\n"
+    want = cpython_init(src, "D")
+    d_obj = Obj(cls_cls, {"name": "D", "path": "m.D", "members": {"a": attribute("a", {}), "b": attribute("b", {"value": "1"})}, "decorators": [decorator(None)], "labels": set(),
+                          "set_member": Native(lambda n_, v_: None)}, label="D")
+
+    def mro_fails(_i, _self):
+        raise Raised("ValueError")
+
+    it.stubs[f"{M}.Class.mro"] = mro_fails
+    captured.clear()
+    it.steps = 0
+    try:
+        it.call(sdi, d_obj)
+        got3: object = "no __init__ synthesised" if not captured else [(p.attrs["name"], p.attrs["kind"].name.split(".")[-1], it.truth(it.getattr(p, "required"))) for p in it._iterate(captured[0])][1:]
+    except Raised as r:
+        got3 = f"raises {r.exc}"
+    finally:
+        it.stubs.pop(f"{M}.Class.mro", None)
+    rows += 1
+    ctx.ob("R2", "mro-not-computable|class D: pass / @dataclass class D(D): a: int; b: int = 1", got3 == want,
+           f"class whose MRO computation raises ValueError (base resolves to the class itself): griffe {got3}; CPython {want}", where(sdi))
     ctx.expect_min("R2", rows, 600)
     ctx.analysed["dataclass_definitions"] = rows
 
